@@ -398,13 +398,14 @@ func (w *World) Evaluate(st *Stats, state sdk.Context, h0 [32]byte, senderName s
 		st.Vac["routed_rejected"]++
 		st.Rejected["probe:"+errClass(errR)]++
 		if errC == nil {
-			add(o1+".routed-fails-composition-succeeds", "%s: routed message failed (%v) but the one-at-a-time composition succeeded with %s [%s]", desc, errR, amtC, logC)
+			add(eq, "%s: routed message failed (%v) but the one-at-a-time composition succeeded with %s [%s]", desc, errR, amtC, logC)
 		}
 		if !c.split() {
 			Q, _ := state.CacheContext()
 			_, have, errQ := w.estimate(Q, whitelisted, c)
 			if have && errQ == nil {
 				st.Vac["estimate_ok_execution_rejected"]++
+				st.Rejected["probe-with-successful-estimate:"+errClass(errR)]++
 			}
 			if core.StateHash(a, Q, nil) != h0 {
 				add("3.estimate-changes-state", "%s: the estimate query changed the store content", desc)
@@ -466,7 +467,7 @@ func (w *World) Evaluate(st *Stats, state sdk.Context, h0 [32]byte, senderName s
 
 	// ---- oracle 1 / 2: routed == composition ------------------------------------------------------
 	if errC != nil {
-		add(o1+".composition-fails-routed-succeeds", "%s: routed message succeeded with %s but the composition failed: %v [%s]", desc, amtR, errC, logC)
+		add(eq, "%s: routed message succeeded with %s but the one-at-a-time composition failed: %v [%s]", desc, amtR, errC, logC)
 	} else {
 		st.Vac["compositions_compared"]++
 		if !amtC.Equal(amtR) {
@@ -561,6 +562,20 @@ func (w *World) Evaluate(st *Stats, state sdk.Context, h0 [32]byte, senderName s
 			} else {
 				add("4.limit-run-differs", "%s: with max=%s charged %s, with open limits %s", desc, lim2, o, obs)
 			}
+		}
+		if st.Verbose && c.Kind == "out" {
+			// diagnosis only (replay): the smallest maximum the message accepts
+			lo, hi := sdkmath.OneInt(), obs
+			for lo.LT(hi) {
+				mid := lo.Add(hi).QuoRaw(2)
+				b, _ := state.CacheContext()
+				if _, e := w.sendRouted(st, b, sender, c, mid); e == nil {
+					hi = mid
+				} else {
+					lo = mid.AddRaw(1)
+				}
+			}
+			fmt.Printf("   diagnosis: smallest token_in_max_amount accepted = %s, sender charged %s -> up to %s %s above the caller's maximum\n", lo, obs, obs.Sub(lo), c.start())
 		}
 	} else {
 		st.Vac["limit_violations_rejected"]++
